@@ -560,6 +560,23 @@ def validation_part(chk, tier, rng):
                 n_rep += 1
                 if acc != (label == "accepted"):
                     chk.harness_error("compiled schema predicate and jsonschema disagree on %s = %r (%s)" % (name, value, label))
+    # non-finite numbers: YAML .nan / .inf and JSON NaN / Infinity are numbers to the parsers; no documented range contains them
+    bad_nf = []
+    n_nf = 0
+    for path, spec in DOC.items():
+        if spec.get("type") not in ("number", "integer"):
+            continue
+        for nonfinite in (float("nan"), float("inf"), float("-inf")):
+            cfg = base_config()
+            set_path(cfg, path, nonfinite)
+            n_nf += 1
+            if real_accepts(val.validate_config, cfg):
+                bad_nf.append((".".join(path), nonfinite))
+    chk.obligation("validation rejects non-finite numbers (nan, +inf, -inf) for every documented numeric field [%d values]" % n_nf,
+                   "unsat" if not bad_nf else "sat", kind="rejection")
+    if bad_nf:
+        chk.violation("validate:accepts:non-finite", "validate_config accepts non-finite numbers: %s (%d of %d field/value pairs), e.g. YAML `%s: .nan`"
+                      % (", ".join("%s = %r" % b for b in bad_nf[:4]), len(bad_nf), n_nf, bad_nf[0][0].split(".")[-1]), dict(pairs=[[a, repr(b)] for a, b in bad_nf[:10]]))
     # required sections and closed objects
     for key in REQUIRED_TOP:
         cfg = base_config()
